@@ -206,6 +206,49 @@ func propC02(w *World, r *Report) {
 	}
 	RunAllocBound(w, r, br, fns)
 	RunLoopTerm(w, r, br, fns)
+	RunReencode(w, r)
+}
+
+// RunReencode: the statement's second sentence includes re-encoding of what
+// a decoder returned.  Decided here: the panics of the writers that are not
+// representability limits — defaults of type switches, failed assertions and
+// "not implemented" stubs — are unreachable for decoded fonts.  (Panics that
+// guard a size limit with an integer comparison, e.g. "too many lookup
+// tables", are not covered: whether a decoded table can exceed a limit of
+// the writer's layout is value-level.)
+func RunReencode(w *World, r *Report) {
+	r.Rule("reencode: every panic reachable from Font.Write / WriteTrueTypePDF / WriteOpenTypeCFFPDF that is not guarded by an integer comparison (type-switch defaults, unchecked assertions, 'not implemented' stubs) is the default of a closed type switch, or reviewed, or a known finding")
+	entries := mustFuncs(w, r, "(*sfnt.Font).Write", "(*sfnt.Font).WriteTrueTypePDF", "(*sfnt.Font).WriteOpenTypeCFFPDF")
+	var fns []*ssa.Function
+	for f := range w.libReach(entries) {
+		fns = append(fns, f)
+	}
+	sort.Slice(fns, func(i, j int) bool { return fnName(fns[i]) < fnName(fns[j]) })
+	for _, ps := range panicSites(w, fns) {
+		// size-limit panics: the panic block is guarded by an integer comparison
+		sizeLimit := false
+		if ps.kind == "panic" {
+			for _, g := range guardsOf(ps.ins.Block()) {
+				if cmp, ok := g.cond.(*ssa.BinOp); ok && isIntType(cmp.X.Type()) {
+					switch cmp.Op {
+					case token.LSS, token.LEQ, token.GTR, token.GEQ, token.NEQ, token.EQL:
+						sizeLimit = true
+					}
+				}
+			}
+		}
+		if sizeLimit {
+			continue
+		}
+		key := r.MkKey("reencode", fnName(ps.fn), ps.desc)
+		pos := w.Pos(ps.ins.Pos())
+		if ok, how := closedTypeSwitchDefault(w, ps); ok {
+			r.OK("reencode", key, pos, how)
+			continue
+		}
+		r.Fail("reencode", key, pos, ps.desc+" in "+fnName(ps.fn)+" is reachable from the font writers", w.PathTo(entries, ps.fn))
+	}
+	r.Floor("reencode", 8)
 }
 
 // RunInvariants checks the structure invariants the prover assumes, at every
